@@ -321,6 +321,10 @@ func runShapes(f *mbt.Flags) {
 		o := r.exec(p)
 		cnt["shapes"]++
 		changed := o.DumpChanged || len(o.RawDiff) > 0
+		if strings.HasSuffix(s.Ctx, "_flush") && o.Kind == "ok" {
+			// the victim's own content-preserving rewrite touches the raw entries (mod times): Dump() decides
+			changed = o.DumpChanged
+		}
 		executed := o.Stage == "run" && o.Kind != "typecheck"
 		switch {
 		case o.Kind == "typecheck":
@@ -371,7 +375,11 @@ func runShapes(f *mbt.Flags) {
 				r.k++
 				p2, _ := gen(s, r.k)
 				o2 := r.exec(p2)
-				if !(o2.DumpChanged || len(o2.RawDiff) > 0) {
+				again := o2.DumpChanged || len(o2.RawDiff) > 0
+				if strings.HasSuffix(s.Ctx, "_flush") && o2.Kind == "ok" {
+					again = o2.DumpChanged
+				}
+				if !again {
 					cnt["flaky"]++
 					mbt.Emit(map[string]any{"kind": "flaky", "shape": s.id()})
 				} else {
